@@ -141,6 +141,21 @@ def composeLocation (s : Src) (sp : Span) : Option Loc :=
 `assert!(e.location.is_some(), "span … is out of bounds of the source")` fires. -/
 def composedLocation (s : Src) (sp : Span) : Option Loc := composeLocation s sp
 
+/-- outcome of `ErrorMessages::composed` for one error whose source text was found -/
+inductive Composed where
+  | ok (loc : Loc)
+  /-- `assert!(e.location.is_some(), "span {:?} is out of bounds of the source (len = {})")` -/
+  | panicOutOfBounds
+  /-- ariadne `Label::new`: `assert!(span.start() <= span.end(), "Label start is after its end")` (in `compose_display`) -/
+  | panicLabelOrder
+  deriving DecidableEq, Repr
+
+/-- `composed`: location first (assert), then the display (ariadne label) -/
+def composed (s : Src) (sp : Span) : Composed :=
+  match composeLocation s sp with
+  | none => .panicOutOfBounds
+  | some l => if sp.stop < sp.start then .panicLabelOrder else .ok l
+
 /-- what the property demands of a span: ordered and inside the source, measured in characters -/
 def SpanOk (s : Src) (sp : Span) : Prop := sp.start ≤ sp.stop ∧ sp.stop ≤ s.length
 
@@ -155,8 +170,8 @@ structure LexErr where
   span : Span
   deriving DecidableEq, Repr
 
-def strUnexpected : Src := "unexpected ".toList
-def strEndOfInput : Src := "end of input".toList
+def strUnexpected : Src := ['u', 'n', 'e', 'x', 'p', 'e', 'c', 't', 'e', 'd', ' ']
+def strEndOfInput : Src := ['e', 'n', 'd', ' ', 'o', 'f', ' ', 'i', 'n', 'p', 'u', 't']
 
 /-- `convert_lexer_error` on the byte span `bs..be` chumsky reports. `none` = a Rust panic
 (`source[..b]` off a boundary / out of range, or `char_end - char_start` underflow). -/
